@@ -170,6 +170,30 @@ def check_named(case):
                     raise PropertyViolation(
                         f"{fname}(method={method}, agg={agg}) = {got!r}, expected {e!r} from TPR disparity {t!r} and FPR disparity {f!r}; per-group rates {per}, overall {ov}"
                     )
+    # documented defaults (method="between_groups", agg="worst_case") - called after the explicit
+    # to_overall calls above, so a result that depends on an earlier call of the same function shows up
+    dflt = {}
+    for r in ("sel", "tpr", "fpr"):
+        vals = [per[k][r] for k in per]
+        dflt[r, "diff"] = _difference(vals, ov[r], "between_groups")
+        dflt[r, "ratio"] = _ratio(vals, ov[r], "between_groups")
+    defaults = {
+        "demographic_parity_difference": dflt["sel", "diff"], "demographic_parity_ratio": dflt["sel", "ratio"],
+        "equal_opportunity_difference": dflt["tpr", "diff"], "equal_opportunity_ratio": dflt["tpr", "ratio"],
+        "selection_rate_difference": dflt["sel", "diff"], "selection_rate_ratio": dflt["sel", "ratio"],
+        "true_positive_rate_difference": dflt["tpr", "diff"], "true_positive_rate_ratio": dflt["tpr", "ratio"],
+        "false_positive_rate_difference": dflt["fpr", "diff"], "false_positive_rate_ratio": dflt["fpr", "ratio"],
+        "equalized_odds_difference": _eo_combine(dflt["tpr", "diff"], dflt["fpr", "diff"], "worst_case", "diff"),
+        "equalized_odds_ratio": _eo_combine(dflt["tpr", "ratio"], dflt["fpr", "ratio"], "worst_case", "ratio"),
+    }
+    for fname, e in defaults.items():
+        got = _scalar(fname, getattr(fm, fname)(Yt, Yp, **kw))
+        if e is None:
+            continue  # NaN component of equalized odds: not defined by the property
+        if not M.close(got, e):
+            raise PropertyViolation(
+                f"{fname} called with default method/agg (after a to_overall call) = {got!r}, between_groups/worst_case value from first principles {e!r}; per-group rates {per}, overall {ov}"
+            )
     distinct = {tuple(round(v, 12) for v in p.values()) for p in per.values()}
     if len(per) >= 2 and len(distinct) >= 2:
         tags.add("nt")
@@ -235,6 +259,13 @@ def check_generated(case):
         except Exception as e:  # noqa: BLE001  the base metric is undefined on some group
             ref_err = e
         try:
+            if transform in ("difference", "ratio") and case.get("prior_call"):
+                # a previous call with the other method must not influence this one; with
+                # use_default the method is then left to its documented default (between_groups)
+                other = "to_overall" if method == "between_groups" else "between_groups"
+                f(Yt, Yp, **dict(kw, method=other))
+                if case.get("use_default") and method == "between_groups":
+                    kw.pop("method")
             got = f(Yt, Yp, **kw)
             got_err = None
         except Exception as e:  # noqa: BLE001
@@ -316,6 +347,11 @@ def check_derived(case):
     call_kw.update(sample_params)
     if transform in ("difference", "ratio"):
         call_kw["method"] = method
+    if transform in ("difference", "ratio") and case.get("prior_call"):
+        other = "to_overall" if method == "between_groups" else "between_groups"
+        dm(Yt, Yp, sensitive_features=sf, **dict(call_kw, method=other))
+        if case.get("use_default") and method == "between_groups":
+            call_kw.pop("method")
     got = _scalar("derived metric", dm(Yt, Yp, sensitive_features=sf, **call_kw))
 
     # first principles
@@ -409,6 +445,8 @@ def _generated_case(draw):
     c = draw(_dataset())
     c["fn"] = list(draw(st.sampled_from(SK_GENERATED)))
     c["method"] = draw(st.sampled_from(["between_groups", "to_overall"]))
+    c["prior_call"] = draw(st.booleans())
+    c["use_default"] = draw(st.booleans())
     return c
 
 
@@ -427,6 +465,8 @@ def _derived_case(draw):
     c["bound"] = bound
     if c["metric"] == "extra":
         c["extra"] = draw(st.one_of(st.none(), st.lists(st.integers(0, 3).map(float), min_size=n, max_size=n)))
+    c["prior_call"] = draw(st.booleans())
+    c["use_default"] = draw(st.booleans())
     return c
 
 
